@@ -54,18 +54,22 @@ CLAIMS["C07"] = dict(
 
 CLAIMS["C01"] = dict(
     category="other",
-    text=("Decides, for every path of trust_region_minimize / is_converged / nonlinear_equation_solve: (D1) a True flag is "
-          "returned only behind the convergence test applied to the returned point's own gradient, the test is an upper bound "
-          "homogeneous with settings.tol, the objective's parameters are assigned before the solve and after the warm start, "
-          "and the caller gets the solver's own flag; (D2) in default mode an accepted step satisfies "
-          "objective.value(x+d) - o <= 0 (sign proof: acceptance => ratio >= c >= 0, denominator >= 0 on each path where a "
-          "ratio definition is used, numerator = -(value(x+d) - o) with o fresh, accepted point = x + that d); (D3) accepted "
-          "iterates are reported and exits return the iterate state or the reported successful point; (D4) a NaN ratio "
-          "rejects the step and shrinks the radius; the settings factory puts every parameter into the field of the same name; the step-type labels that the inner CG attaches to "
-          "boundary-projected steps are exactly those recognised by is_on_boundary (the radius grows after them and only them). Convergence on convex problems, uniqueness, and finiteness beyond D4 "
-          "are trajectory properties and are NOT decided."),
-    design_ref="DESIGN.md section 4, C01",
-    technique="static analysis: CFG dominators + reaching definitions with branch facts, sign and NaN-polarity abstract domains, homogeneity degree")
+    text=("Decided on the paths of a path-enumerating symbolic execution of EquationSolver (rules/C01_symx.py: exact polynomial values over "
+          "canonical opaque atoms incl. quotients; nested defs, lambdas, partial, private helpers, methods and small classes inlined; tuples / "
+          "namedtuples / dicts / attribute cells tracked per component; every decided comparison kept per path as a set of outcomes {<0, =0, >0, "
+          "NaN}; loops generalised by the relations every continuing iteration keeps; loop-containing helpers spliced into the caller's CFG) with "
+          "obligations over roles, not names (rules/C01_tr.py: the iterate is what a loop relation ties to the last point handed to the "
+          "callback, the ratio is the compared quotient, the radius is what holds settings.tr_size on loop entry): (D1) a True flag is returned "
+          "only behind the convergence test applied to the returned point's own gradient, the test is a NaN-safe upper bound homogeneous with "
+          "settings.tol, the objective's parameters are assigned before the solve and after the warm start (call events with heap snapshots, incl. "
+          "the scaled-coordinate round trip), Objective's methods use the current p after p was replaced, the caller gets the solver's own flag; "
+          "(D2) in default mode an accepted step satisfies value(x+d) - value(x) <= 0: acceptance => ratio >= c >= 0, the denominator's sign on "
+          "that path, numerator = -(value(new) - value(current)); (D3) accepted iterates are reported and exits return the reported point; (D4) "
+          "a NaN ratio is not accepted and shrinks the radius; is_on_boundary recognises every boundary label the inner solver emits; the "
+          "settings factories fill fields by name. The descent clause is decided in default mode only; a callback is assumed. A failed equality "
+          "refutes only if the two sides differ in known structure, otherwise UNDECIDED. Convergence for every objective is NOT decided."),
+    design_ref="DESIGN.md section 4, C01 and section 11.8",
+    technique="static analysis: path-enumerating symbolic execution over the statement CFG with exact polynomial values, four-valued comparison outcomes (NaN), loop-relation generalisation; role-based obligations")
 
 CLAIMS["C05"] = dict(
     category="other",
